@@ -2,6 +2,7 @@ SPECIFICATION Spec
 CONSTANTS
   MaxLen = 0
   EmitReplay = FALSE
+  RowMode = FALSE
   UseCorpus = TRUE
 INVARIANTS NoPanicState SpansOk AcceptSound AcceptComplete LinesOk CorpusValid PrintBehaviour
 CHECK_DEADLOCK FALSE
